@@ -37,6 +37,8 @@ def gen(rng: random.Random, tier: str):
                "scale": rng.choice([1.0, 1.0, 1.0, 0.5, 2.0, -1.0, 0.0, -2.0])}
     for _ in range({"quick": 6, "thorough": 60}[tier]):
         yield {"kind": "anonymous", "seed": rng.randrange(10**6), "which": rng.choice(["random", "stochastic", "stochastic-linear"])}
+    for which in ("random-fixed-seed", "stochastic-fixed-seed"):          # directed: a component configured with a plain integer seed is one stream, not the same draw again and again
+        yield {"kind": "anonymous", "seed": rng.randrange(10**6), "which": which}
     if tier == "thorough":
         yield {"kind": "odds", "weights": [1.0, 2.0, 3.0, 0.5], "draws": 20000, "seed": rng.randrange(10**6)}
 
@@ -59,21 +61,26 @@ def run(case: dict, lean: Lean) -> Outcome:
         # a component seeded per user serves queries that carry no user identifier: every execution is a new draw
         il = ItemList(item_ids=list(range(100, 108)), scores=np.linspace(0.5, 4.0, 8))
         mk = {"random": lambda: RandomSelector(n=3, rng=(case["seed"], "user")), "stochastic": lambda: StochasticTopNRanker(n=3, rng=(case["seed"], "user")),
-              "stochastic-linear": lambda: StochasticTopNRanker(n=3, transform="linear", rng=(case["seed"], "user"))}[case["which"]]
+              "stochastic-linear": lambda: StochasticTopNRanker(n=3, transform="linear", rng=(case["seed"], "user")),
+              "random-fixed-seed": lambda: RandomSelector(n=3, rng=case["seed"]), "stochastic-fixed-seed": lambda: StochasticTopNRanker(n=3, rng=case["seed"])}[case["which"]]
         comp = mk(); outs = [tuple(int(i) for i in comp(il).ids()) for _ in range(40)]
         ok = len(set(outs)) > 1          # 40 identical ordered triples out of 336 have probability < 1e-90 under any of the configured laws
-        return Outcome(True, ok, ("anonymous queries under a user-derived seed",), {"distinct_outcomes": len(set(outs)), "first": list(outs[0])}, None)
+        return Outcome(True, ok, ("repeated calls with a fixed integer seed" if case["which"].endswith("fixed-seed") else "anonymous queries under a user-derived seed",), {"distinct_outcomes": len(set(outs)), "first": list(outs[0])}, None)
     raw = [_f(x) for x in case["scores"]]; N = len(raw)
     fin = [x for x in raw if math.isfinite(x)]
     il = ItemList(item_ids=[10 + i for i in range(N)], scores=np.array(raw, dtype="f8") if N else np.array([], dtype="f8"), tag=[f"t{i}" for i in range(N)])
     failed = []
     if case["kind"] == "random":
         g = Scripted(picks=case["perm"])
-        sel = RandomSelector(n=case["cfg_n"]); sel._rng_factory = lambda _q: g
+        import lenskit.basic.random as _br
+        _orig = _br.derivable_rng; _br.derivable_rng = lambda spec: (lambda q=None: g)          # the scripted generator, wherever the component resolves its factory
         try:
-            out = sel(il, n=case["run_n"]); real = [int(i) - 10 for i in out.ids()]
-        except Exception as e:
-            real = "EXC:" + type(e).__name__; out = None
+            sel = RandomSelector(n=case["cfg_n"])
+            try:
+                out = sel(il, n=case["run_n"]); real = [int(i) - 10 for i in out.ids()]
+            except Exception as e:
+                real = "EXC:" + type(e).__name__; out = None
+        finally: _br.derivable_rng = _orig
         # length: a non-negative run-time n overrides; None / negative falls back to the configured one (0/None = unlimited)
         rn, cn = case["run_n"], case["cfg_n"]
         # `RandomSelector`: a run-time n (any value) wins; negative means everything; otherwise the configured one (0/None = -1)
@@ -89,11 +96,15 @@ def run(case: dict, lean: Lean) -> Outcome:
     before = il.scores().copy() if N else np.array([])
     g = Scripted(us=case["us"])
     scale = float(case.get("scale", 1.0))
-    rk = StochasticTopNRanker(n=case["cfg_n"], transform=case["transform"], scale=scale); rk._rng_factory = lambda _q: g
+    import lenskit.stochastic._ranker as _sr
+    _orig = _sr.derivable_rng; _sr.derivable_rng = lambda spec: (lambda q=None: g)
     try:
-        out = rk(il, n=case["run_n"]); real = [int(i) - 10 for i in out.ids()]
-    except Exception as e:
-        real = "EXC:" + type(e).__name__; out = None
+        rk = StochasticTopNRanker(n=case["cfg_n"], transform=case["transform"], scale=scale)
+        try:
+            out = rk(il, n=case["run_n"]); real = [int(i) - 10 for i in out.ids()]
+        except Exception as e:
+            real = "EXC:" + type(e).__name__; out = None
+    finally: _sr.derivable_rng = _orig
     scs = [None if (isinstance(x, float) and math.isnan(x)) else "inf" if x == math.inf else "-inf" if x == -math.inf else rat(x) for x in raw]
     scaled = [x * scale for x in fin]          # the scores every transform starts from
     w = (lean.call("c19.linear", dict(scores=[rat(x) for x in scaled])) if fin else []) if case["transform"] == "linear" else [rat(x) for x in scaled]
